@@ -159,9 +159,11 @@ def workdir(prefix, key):
         other = os.path.isdir(shm) and os.access(shm, os.W_OK) and os.stat(shm).st_dev != os.stat(tempfile.gettempdir()).st_dev
     except OSError:
         other = False
+    # one case in four works in a directory whose name has blanks and non-ASCII characters in it
+    odd = "my data \u00e9\u00fc " if zlib.crc32(("wdname" + str(key)).encode()) % 4 == 1 else ""
     if other and zlib.crc32(("wd" + str(key)).encode()) % 5 == 0:
-        return tempfile.mkdtemp(prefix="verif_" + prefix, dir=shm)
-    return tempfile.mkdtemp(prefix=prefix)
+        return tempfile.mkdtemp(prefix="verif_" + odd + prefix, dir=shm)
+    return tempfile.mkdtemp(prefix=odd + prefix)
 
 
 def eol_for(key):
